@@ -71,6 +71,9 @@ func init() {
 			}
 			if r.coin(4) {
 				c.X = mkDec(apd.Finite, r.coin(50), big.NewInt(0), r.rangeI(-9, 9))
+				if r.coin(50) { // zeros whose halved / thirded exponent leaves the context's range
+					c.X.Exponent = int32(r.pick([]int{-1, 1}) * r.rangeI(2*int(ctx.MaxExponent)-3, 3*int(ctx.MaxExponent)+400))
+				}
 			}
 			if r.coin(15) {
 				c.Alias = "dx"
